@@ -267,6 +267,11 @@ def scaled_mi(mi):
     return W, slack, D
 
 
+def edge_eps(D):
+    """tolerance of the cycle-property certificate per pair: ceil(D / 2^20) (8 float32 ulps of 1 + MI)."""
+    return -((-D) // (2 ** 20))
+
+
 def case_coq(case, out, want_root):
     n = case["n"]
     zrow = lambda r: "[" + "; ".join(str(int(v)) for v in r) + "]%Z"
@@ -274,7 +279,7 @@ def case_coq(case, out, want_root):
     par = "[" + "; ".join("None" if t < 0 else f"Some {t}%nat" for t in out["tree"]) + "]"
     params = C.coq_list([C.coq_list([C.coq_list([C.qlit(float(out["params"][i, l, k])) for k in (0, 1)])
                                      for l in (0, 1)]) for i in range(n)])
-    W, slack, _ = scaled_mi(out["mi"])
+    W, slack, D_ = scaled_mi(out["mi"])
     Wc = "[" + "; ".join(zrow(r) for r in W) + "]"
     width = max(case["scope"]) + 1
     qs = []
@@ -285,13 +290,14 @@ def case_coq(case, out, want_root):
                 cells[v] = f"S_ {int(x[pos])}"
         qs.append("([" + "; ".join(cells) + "], " + C.qlit(lik) + ")")
     return (f"(run_c11case {d} {C.qlit(Fraction(case['alpha']))} {want_root}%nat {par} {C.natlist(out['bfs'])}\n"
-            f"  {params}\n  {Wc} ({slack})%Z {C.natlist(case['scope'])} {C.coq_list(qs)})")
+            f"  {params}\n  {Wc} ({slack})%Z ({edge_eps(D_)})%Z {C.natlist(case['scope'])} {C.coq_list(qs)})")
 
 
 FLAGS = {1: "params differ from the model's smoothed conditionals", 2: "predecessor vector is not a spanning tree rooted at the root",
          4: "tree weight below the brute-force maximum over all spanning trees", 8: "tree weight below the model's Prim reference",
          16: "bfs order invalid", 32: "model's fitted tree malformed / all-missing value is not one",
-         64: "likelihood of a query row differs from the model's fitted tree", 128: "data not binary (generator error)"}
+         64: "likelihood of a query row differs from the model's fitted tree", 128: "data not binary (generator error)",
+         256: "cycle-property certificate fails: some pair of variables is not connected by tree edges at least as heavy as its mutual information (the tree is not a maximum spanning tree)"}
 
 
 def brief(case, out=None):
